@@ -182,6 +182,21 @@ def r10_3(prog, out):
         out.holds(key, mi.loc(proj[0]), "project check dominates the insert; the rejecting arm returns before anything is created")
     else:
         out.violation(key, mi.loc(ins[0]), "the subscription is inserted before the same-project rule is checked: a rejected create leaves a subscription behind")
+    # after the insert (the commit point) the remaining steps must not be able to say no: the attach handler is infallible,
+    # or the flow removes the entry again on its error path
+    R = roles(prog)
+    attach = R.attach_variant()
+    for tid in R.variant_targets(R.topic_actor, attach):
+        ti = prog.info(tid)
+        errs = [blk.idx for blk in ti.body.blocks if not blk.cleanup and any(
+            s.k == "assign" and s.rv.k == "agg" and s.rv.j.get("variant") == "Err" and s.rv.j.get("adt") == "std::result::Result" for s in blk.stmts)]
+        rollback = any(e.touches(submap) and e.kind in L.REMOVE_KINDS for e in prog.effects(mgr))
+        key = "attach-cannot-refuse:%s" % prog.short(tid)
+        if errs and not rollback:
+            out.violation(key, ti.loc(errs[0]), "the topic can refuse the attach of a subscription that is already registered in the manager, and the create flow has no "
+                          "rollback: CreateSubscription fails but the subscription exists (get/list see it, a retry gets ALREADY_EXISTS)")
+        else:
+            out.holds(key, prog.loc(tid), "the attach handler always succeeds" if not errs else "the create flow rolls the registration back on failure")
     # handler: topic lookup precedes the create call
     h = prog.handler("create_subscription")
     hi = prog.info(h.root)
@@ -329,3 +344,32 @@ def r10_6(prog, out):
                 else:
                     out.violation(key, bi.loc(esc[-1]), "a path returns successfully without waiting for the actor's reply to %s" % v["name"],
                                   ["bb%d (%s)" % (x, bi.loc(x)) for x in esc][:8])
+
+
+@rule("C10", "R10.7", "a handle method never answers without asking the actor (no fast path around the mailbox)", floor=11)
+@rule("C06", "R10.7", "a handle method never answers without asking the actor (no fast path around the mailbox)", floor=11)
+@rule("C03", "R10.7", "a handle method never answers without asking the actor (no fast path around the mailbox)", floor=11)
+@rule("C15", "R10.7", "a handle method never answers without asking the actor (no fast path around the mailbox)", floor=11)
+def r10_7(prog, out):
+    for actor in prog.actors:
+        adt = prog.facts.adt(actor.request)
+        for v in adt["variants"]:
+            for (bid, bb, i, rv) in prog.constructions(actor.request, v["name"]):
+                bi = prog.info(bid)
+                key = "no-fast-path:%s::%s:%s" % (short_ty(actor.request), v["name"], prog.short(bid))
+                sends = [a for a in bi.awaits if await_class(prog, bi, a) == "mpsc_send"]
+                if not sends:
+                    out.undecided(key, bi.loc(bb), "request built but not sent from this body")
+                    continue
+                errs = error_blocks(bi)
+                esc = bi.cfg.escapes(0, {a.ready_bb for a in sends if a.ready_bb is not None} | errs, after=False)
+                if esc is None:
+                    out.holds(key, bi.loc(sends[0].poll_bb), "every successful return passes the mailbox send")
+                else:
+                    site = esc[-1]
+                    for x in esc:
+                        if bi.body.blocks[x].term.k == "switch":
+                            site = x
+                            break
+                    out.violation(key, bi.loc(site), "%s can answer successfully without sending %s to the actor: the actor's state (wake-up hand-on, batch limit, deleted flag, "
+                                  "serialisation with other requests) is bypassed on that path" % (prog.short(bid), v["name"]), ["bb%d (%s)" % (x, bi.loc(x)) for x in esc][:8])
